@@ -1,4 +1,5 @@
-//! Shared harness plumbing: deterministic PRNG, hex, and the gen/run command line.
+//! Shared harness plumbing: deterministic PRNG, hex, frame builders and the gen/run command line.
+pub mod pkt;
 use std::io::{BufRead, Write};
 use std::panic::{catch_unwind, AssertUnwindSafe};
 
